@@ -340,24 +340,41 @@ ApplyScalar(s, what) ==
          IF what \in {"debug", "hasher"} THEN 0 ELSE 2)
 
 -----------------------------------------------------------------------------
-(* iterators.  A run is: open an iterator of `kind`, perform the word w    *)
-(* over {"n" (next), "b" (next_back)}, then drop or forget it.  While a    *)
-(* borrowing iterator or a drain lives the cache is borrowed, and owning   *)
-(* iterators consume it, so for safe programs the run is atomic.           *)
-(* ret.seq lists what each call yielded: a key id, or 0 for None.          *)
+(* iterators.  A run is: open an iterator of `kind`, perform the word w,   *)
+(* then drop or forget it.  The letters of a word are the calls             *)
+(*    "n"  next()          "b"  next_back()                                 *)
+(*    "sJ" nth(J)          "rJ" nth_back(J)        (J = 1, 2)               *)
+(* nth(J) is what the Iterator contract says: J + 1 entries are consumed    *)
+(* from that end, the last of them is returned and the J before it are      *)
+(* SKIPPED (an owning iterator or drain drops them); when fewer than J + 1  *)
+(* remain, all of them are consumed and the call returns None.  skip(),     *)
+(* step_by() and rev() of the standard library are built from these calls.  *)
+(* While a borrowing iterator or a drain lives the cache is borrowed, and   *)
+(* owning iterators consume it, so for safe programs the run is atomic.     *)
+(* ret.seq lists what each call yielded: a key id, or 0 for None.           *)
+
+FrontLetters == {"n", "s1", "s2"}
+BackLetters  == {"b", "r1", "r2"}
+IterLetters  == FrontLetters \cup BackLetters
+SkipOf(t)    == CASE t \in {"s1", "r1"} -> 1 [] t \in {"s2", "r2"} -> 2 [] OTHER -> 0
 
 RECURSIVE IterYields(_, _)
 IterYields(rem, w) ==
     IF w = <<>> THEN <<>>
-    ELSE IF rem = <<>> THEN <<0>> \o IterYields(rem, Tail(w))
-    ELSE IF Head(w) = "n" THEN <<Head(rem).k>> \o IterYields(Tail(rem), Tail(w))
-    ELSE <<rem[Len(rem)].k>> \o IterYields(SubSeq(rem, 1, Len(rem) - 1), Tail(w))
+    ELSE LET j == SkipOf(Head(w)) IN
+         IF Len(rem) <= j THEN <<0>> \o IterYields(<<>>, Tail(w))
+         ELSE IF Head(w) \in FrontLetters
+         THEN <<rem[j + 1].k>> \o IterYields(DropN(rem, j + 1), Tail(w))
+         ELSE <<rem[Len(rem) - j].k>> \o IterYields(TakeN(rem, Len(rem) - j - 1), Tail(w))
 
+(* what the iterator has not consumed after the word *)
 RECURSIVE IterRest(_, _)
 IterRest(rem, w) ==
     IF w = <<>> \/ rem = <<>> THEN rem
-    ELSE IF Head(w) = "n" THEN IterRest(Tail(rem), Tail(w))
-    ELSE IterRest(SubSeq(rem, 1, Len(rem) - 1), Tail(w))
+    ELSE LET j == SkipOf(Head(w)) IN
+         IF Len(rem) <= j THEN <<>>
+         ELSE IF Head(w) \in FrontLetters THEN IterRest(DropN(rem, j + 1), Tail(w))
+         ELSE IterRest(TakeN(rem, Len(rem) - j - 1), Tail(w))
 
 BorrowingKinds == {"iter", "keys", "values"}
 OwningKinds    == {"into_iter", "into_keys", "into_values"}
@@ -373,11 +390,13 @@ ApplyIter(s, kind, w, forget) ==
     LET ys    == IterYields(s.ord, w)
         rest  == IterRest(s.ord, w)
         taken == SelectSeq(s.ord, LAMBDA e : \E j \in DOMAIN ys : ys[j] = e.k)
+        \* consumed by an nth / nth_back without being yielded: dropped by that call
+        skipd == SelectSeq(s.ord, LAMBDA e : e.k \notin KeysOf(taken) \cup KeysOf(rest))
         ret   == Ret(IF forget THEN "forgot" ELSE "dropped", 0, 0, 0, NoM, NoM, 0, ys)
         ydrop == UNION {YieldDrops(kind, taken[j]) : j \in DOMAIN taken}
         yhand == MarkersOf(taken) \ ydrop
         lk    == IF forget THEN MarkersOf(rest) ELSE {}
-        rdrop == IF forget THEN {} ELSE MarkersOf(rest)
+        rdrop == MarkersOf(skipd) \cup (IF forget THEN {} ELSE MarkersOf(rest))
     IN
     IF kind \in BorrowingKinds THEN Same(s, ret, 0)
     ELSE IF kind = "drain"
@@ -631,25 +650,46 @@ C11_Step(s, a, x) ==
                        IN /\ j <= Len(o) /\ x.ev = TakeN(o, j)
                           /\ Fits(j) /\ (j = 0 \/ ~Fits(j - 1))
 
-(* C12: iterator runs *)
+(* C12: iterator runs, stated by POSITION in the least-to-most-recently-used *)
+(* sequence ks: the j-th call asks for FD(j) entries from the front and     *)
+(* BD(j) from the back in total (a plain next / next_back asks for one, an   *)
+(* nth(J) for J + 1); it yields the entry at that distance from its end if   *)
+(* the two demands still fit into ks, and None from then on.                 *)
+RECURSIVE DemandSum(_, _, _)
+DemandSum(w, j, letters) ==
+    IF j = 0 THEN 0
+    ELSE DemandSum(w, j - 1, letters) + (IF w[j] \in letters THEN SkipOf(w[j]) + 1 ELSE 0)
+
 C12_Step(s, a, x) ==
     (a.op \in IterKinds) =>
     LET ys  == x.ret.seq
         ks  == KeySeq(s.ord)
-        fr  == SelectSeq([j \in DOMAIN ys |-> IF a.w[j] = "n" THEN ys[j] ELSE 0], LAMBDA y : y # 0)
-        bk  == SelectSeq([j \in DOMAIN ys |-> IF a.w[j] = "b" THEN ys[j] ELSE 0], LAMBDA y : y # 0)
+        n   == Len(ks)
+        FD(j) == DemandSum(a.w, j, FrontLetters)
+        BD(j) == DemandSum(a.w, j, BackLetters)
+        Fits(j) == FD(j) + BD(j) <= n
+        last    == Len(a.w)
+        \* positions consumed by the run: everything once a call did not fit
+        allFit  == \A j \in 1..last : Fits(j)
+        consumed == IF allFit THEN (1..FD(last)) \cup ((n + 1 - BD(last))..n) ELSE 1..n
         yielded == {ys[j] : j \in DOMAIN ys} \ {0}
-        rest    == SelectSeq(s.ord, LAMBDA e : e.k \notin yielded)
-    IN /\ Len(ys) = Len(a.w)
-       /\ Len(fr) + Len(bk) <= Len(ks)
-       /\ fr = TakeN(ks, Len(fr))                    \* front: LRU to MRU
-       /\ bk = TakeN(RevSeq(ks), Len(bk))            \* back: MRU to LRU
-       /\ \A j \in DOMAIN ys :                       \* None only once exhausted, then forever
-             (ys[j] = 0) <=> (Cardinality({ys[i] : i \in 1..(j - 1)} \ {0}) = Len(ks))
+        skipped == SelectSeq(s.ord, LAMBDA e : e.k \notin yielded
+                                               /\ \E i \in consumed : ks[i] = e.k)
+        rest    == SelectSeq(s.ord, LAMBDA e : \A i \in consumed : ks[i] # e.k)
+    IN /\ Len(ys) = last
+       /\ \A j \in 1..last : a.w[j] \in IterLetters
+       /\ \A j \in 1..last :
+             IF \A i \in 1..j : Fits(i)
+             THEN ys[j] = (IF a.w[j] \in FrontLetters THEN ks[FD(j)]        \* front: LRU to MRU
+                                                     ELSE ks[n + 1 - BD(j)]) \* back: MRU to LRU
+             ELSE ys[j] = 0                       \* None once exhausted, then forever
+       /\ Cardinality(yielded) = Cardinality({j \in DOMAIN ys : ys[j] # 0})   \* each once
        /\ (a.op \in BorrowingKinds => x.s = s /\ x.dropped = {} /\ x.handed = {})
        /\ (a.op = "drain" => /\ x.s.alive /\ x.s.ord = <<>> /\ x.s.cur = 0
                              /\ x.s.max = s.max)
        /\ (a.op \in OwningKinds => ~x.s.alive)
+       /\ (a.op \notin BorrowingKinds) =>
+             MarkersOf(skipped) \subseteq x.dropped  \* what nth passed over is dropped
        /\ (a.op \notin BorrowingKinds /\ ~a.fl) =>
              MarkersOf(rest) \subseteq x.dropped     \* the unconsumed rest is dropped
 
